@@ -180,6 +180,12 @@ func c03Run(cs c03Case, viaSet bool) (cls, sig, text string) {
 		return fmt.Sprintf("msize %d, frames %q, frame %d, cuts %v onebyte=%v end=%d eof-with-data=%v", cs.m, names, i, cs.cuts, cs.one, cs.endAt, cs.eofDat)
 	}
 	cls = ""
+	type keptMsg struct {
+		i    int
+		got  p9p.Fcall
+		want *p9p.Fcall
+	}
+	var kept []keptMsg
 	for i, f := range cs.frames {
 		ref := c03Ref(f.Bytes, cs.m)
 		truncated := cs.endAt >= 0 && i == len(cs.frames)-1
@@ -245,8 +251,22 @@ func c03Run(cs c03Case, viaSet bool) (cls, sig, text string) {
 					return "x", "wrong-message:" + f.Class, fmt.Sprintf("frame %s delivered as %s, it encodes %s (%s)", f.Name, Brief(fc), Brief(ref.Msg), desc(i))
 				}
 				cls += "m"
+				kept = append(kept, keptMsg{i, fc, ref.Msg})
 			}
 		}
+	}
+	// a message that was delivered stays what it was, whatever is read later
+	// (its payload must not alias a buffer the channel reuses)
+	recheck := func() (string, string, string) {
+		for _, k := range kept {
+			if !EqFcall(&k.got, k.want) {
+				return "x", "delivered-message-changed", fmt.Sprintf("the message delivered for frame %d was %s; after later reads the same value reads %s (%s)", k.i, Brief(k.want), Brief(k.got), desc(k.i))
+			}
+		}
+		return "", "", ""
+	}
+	if c, sg, tx := recheck(); sg != "" {
+		return c, sg, tx
 	}
 	if cs.endAt < 0 {
 		var fc p9p.Fcall
@@ -257,6 +277,9 @@ func c03Run(cs c03Case, viaSet bool) (cls, sig, text string) {
 		if err == nil {
 			return "x", "read-beyond-end", fmt.Sprintf("ReadFcall returned %s after the last frame: framing lost synchronisation (%s)", Brief(fc), desc(len(cs.frames)))
 		}
+		if c, sg, tx := recheck(); sg != "" {
+			return c, sg, tx
+		}
 	}
 	return cls, "", ""
 }
@@ -264,7 +287,7 @@ func c03Run(cs c03Case, viaSet bool) (cls, sig, text string) {
 func c03(c *core.Ctx) {
 	c.SetLevel("model_checking")
 	c.Budget(80*time.Second, 12*time.Minute)
-	c.SetRule("histories of 1-2 (quick) / 1-3 (thorough) frames over an alphabet of valid frames of every kind, Treads whose count exceeds msize-11, frames oversize by k, unknown types, bodies cut at every length, length prefixes 0-3; msize in {24,32,64,256} (and, for the class representatives delivered at once and in 1000-byte chunks, {4096,4097,8192,65536}); byte stream delivered all at once (also with the last bytes arriving together with io.EOF), one byte per Read, and with every placement of 1 (quick) / 2 (thorough) cuts for class representatives; stream ending after every byte of the last frame. Each ReadFcall is compared with a reference frame parser whose verdict depends on the frame's bytes and msize only (so frame isolation is part of the oracle). outcome = per-history string of verdict classes")
+	c.SetRule("histories of 1-2 (quick) / 1-3 (thorough) frames over an alphabet of valid frames of every kind, Treads whose count exceeds msize-11, frames oversize by k, unknown types, bodies cut at every length, length prefixes 0-3; msize in {24,32,64,256} (and, for the class representatives delivered at once and in 1000-byte chunks, {4096,4097,8192,65536}); byte stream delivered all at once (also with the last bytes arriving together with io.EOF), one byte per Read, and with every placement of 1 (quick) / 2 (thorough) cuts for class representatives; stream ending after every byte of the last frame. Each ReadFcall is compared with a reference frame parser whose verdict depends on the frame's bytes and msize only (so frame isolation is part of the oracle); every delivered message is compared again after all later reads (it must not alias a buffer the channel reuses). outcome = per-history string of verdict classes")
 	c.Assume("reference parser + refcodec are the specification", "after a length prefix below 4 nothing further is asserted about the stream")
 	msizes := []int{24, 32, 64, 256}
 	var mu sync.Mutex
